@@ -31,6 +31,26 @@ def inv_targets(F):
     return out
 
 
+def inv_names(F, targets):
+    """invariant name -> struct path.  Typestate structs (PhantomData<Param> marker) get one invariant per concrete
+    instantiation found in the type table, none for the generic form."""
+    from .absint import typestate_structs, Interp
+    ts = typestate_structs(F)
+    out = {}
+    for p in targets:
+        if p not in ts:
+            out[p] = p
+    if ts:
+        from .models import M
+        I = Interp(F, M, {})
+        for t in F.types:
+            if isinstance(t, dict) and t["k"] == "adt" and t["path"] in ts and t["path"] in targets:
+                nm = I.inv_name(t["path"], t)
+                if nm is not None:
+                    out[nm] = t["path"]
+    return out
+
+
 def is_external_root(b):
     if b["kind"] == "Closure":
         return False
@@ -53,7 +73,7 @@ def _work(args):
         I = None
         used_depth = depth
         for d_try in range(depth, -1, -1):
-            I = Interp(F, M, inv, max_depth=d_try, budget=budget if d_try > 0 else budget * 8)
+            I = Interp(F, M, inv, max_depth=d_try, budget=budget * (1 if d_try == depth else 4 if d_try > 0 else 8))
             I.inv_targets = targets
             I.trusted_ctx = _TRUSTED
             I.rootset = _ROOTSET
@@ -101,6 +121,7 @@ def _work(args):
             for sp, ds in I.inv_records.items():
                 recs[sp] = [[l.key() for l in d] for d in ds]
         out.append({"root": p, "obligs": obl, "events": I.sink.events, "inv": recs, "entered": I.entered,
+                    "inv_used": sorted(I.inv_used),
                     "prov": I.prov if used_depth == depth and err is None else None,
                     "opaque": [(x[0], x[2], x[3]) for x in I.opaque_calls], "err": err, "steps": I.steps,
                     "time": time.time() - t0, "atoms": None})
@@ -170,6 +191,9 @@ def build_invariants(results, old, targets):
         if o is not None and o.get("top"):
             inv[sp] = o
             continue
+        if "<" in sp and per.get(sp.split("<", 1)[0] + "<*>"):
+            inv[sp] = {"disjuncts": [], "top": True}
+            continue
         ds = list(o["disjuncts"]) if o else []
         ds = ds + per.get(sp, [])
         if not ds:
@@ -198,17 +222,32 @@ def build_invariants(results, old, targets):
     return inv
 
 
+def int_returning(F, path):
+    b = F.bodies.get(path)
+    if b is None or b["kind"] == "Closure":
+        return False
+    t = b["locals"][0][0]
+    t = F.types[t] if isinstance(t, int) else t
+    # (u8 / u16 results are bounded well enough by their type)
+    return isinstance(t, str) and t in ("usize", "u32", "u64")
+
+
 def build_summaries(results):
     out = {}
     for r in results:
         pv = r.get("prov")
         if pv:
             sm = {path: (fl if fl == "foreign" else (bool(fl[0]), bool(fl[1]), fl[2] if len(fl) > 2 else None))
-                  for path, fl in pv.items() if path != "__lensrc__"}
+                  for path, fl in pv.items() if path not in ("__lensrc__", "__range__")}
             ls = pv.get("__lensrc__")
-            if any(fl != "foreign" for fl in sm.values()) or ls:
+            rg = pv.get("__range__")
+            if rg == "unbounded":
+                rg = None
+            if any(fl != "foreign" for fl in sm.values()) or ls or rg:
                 if ls:
                     sm["__lensrc__"] = tuple(sorted(ls, key=str))
+                if rg:
+                    sm["__range__"] = tuple(rg)
                 out[r["root"]] = sm
     return out
 
@@ -279,7 +318,7 @@ def select_roots(F):
     return [b["path"] for b in F.body_list if is_external_root(b)]
 
 
-def analyze_crate(F, depth=2, budget=20000, jobs=None, max_rounds=5, log=None, axioms=None):
+def analyze_crate(F, depth=2, budget=20000, jobs=None, max_rounds=16, log=None, axioms=None):
     """full E1 run: returns dict(inv=..., results=[...], roots=[...])"""
     global _TRUSTED
     if axioms is not None:
@@ -290,17 +329,36 @@ def analyze_crate(F, depth=2, budget=20000, jobs=None, max_rounds=5, log=None, a
             log(" ".join(str(x) for x in a))
     roots = select_roots(F)
     targets = inv_targets(F)
-    inv = {sp: {"disjuncts": [], "bottom": True} for sp in targets}
+    names = inv_names(F, targets)
+    inv = {sp: {"disjuncts": [], "bottom": True} for sp in names}
     t0 = time.time()
     # fallback roots are discovered with a cheap first pass (bodies never entered / not inlined)
     iroots = None
     stable = False
+    last = {}
+    changed_prev = None
     for rnd in range(max_rounds):
         use = roots if iroots is None else iroots
+        if rnd >= 2 and changed_prev is not None:
+            # only roots that assumed an invariant which changed in the previous round can behave differently
+            use = [r for r in iroots if r not in last or set(last[r].get("inv_used") or ()) & changed_prev]
         results = run_pass(F, use, inv, True, depth, budget, jobs, rootset=roots)
         if iroots is None:
             iroots = interesting_roots(F, roots, targets)
-        newinv = build_invariants(results, inv, targets)
+        if rnd >= 1:
+            for r in results:
+                last[r["root"]] = r
+            results = [last[r] for r in iroots if r in last]
+        newinv = build_invariants(results, inv, names)
+        dbg = os.environ.get("VERIF_INVDBG")
+        if dbg and log:
+            from .lin import show_lin
+            for r in results:
+                for sp, ds in r["inv"].items():
+                    if dbg in sp:
+                        for d in ds:
+                            say("   REC round %d root %s -> %s: %s" % (rnd, r["root"], sp, " ; ".join(
+                                show_lin(lin_from_key(k)) + ">=0" for k in d)))
         if log:
             seen_e = set()
             for r in results:
@@ -308,20 +366,21 @@ def analyze_crate(F, depth=2, budget=20000, jobs=None, max_rounds=5, log=None, a
                     if e[0] == "inv_empty" and not inv.get(e[1], {}).get("top") and (e[1], e[2]) not in seen_e:
                         seen_e.add((e[1], e[2]))
                         say("   empty disjunct:", e[1], "in", e[2], "root", r["root"], e[3], "|", e[4], "|", e[5])
-        say("inv round", rnd, "roots", len(use), "top", sum(1 for v in newinv.values() if v.get("top")),
+        say("inv round", rnd, "roots", len(use), "of", len(results), "top", sum(1 for v in newinv.values() if v.get("top")),
             "bottom", sum(1 for v in newinv.values() if v.get("bottom")), "t=%.1f" % (time.time() - t0))
         sa, sb = inv_signature(inv), inv_signature(newinv)
         if sa == sb:
             stable = True
             break
-        if rnd >= 3:
+        changed_prev = {sp for sp in names if sa[sp] != sb[sp]}
+        if rnd >= 12:
             # invariants that still change after three rounds are given up (TOP) so that the rest settles
-            for sp in targets:
+            for sp in names:
                 if sa[sp] != sb[sp]:
                     newinv[sp] = {"disjuncts": [], "top": True}
         if log and rnd >= 1:
             from .lin import show_lin
-            for sp in targets:
+            for sp in names:
                 if sa[sp] != sb[sp]:
                     say("   changed:", sp, "top" if newinv[sp].get("top") else "")
                     if rnd >= 2:
@@ -332,9 +391,9 @@ def analyze_crate(F, depth=2, budget=20000, jobs=None, max_rounds=5, log=None, a
         say("invariants did not stabilise; dropping those that still change")
         for _ in range(3):
             results = run_pass(F, iroots, inv, True, depth, budget, jobs, rootset=roots)
-            newinv = build_invariants(results, inv, targets)
+            newinv = build_invariants(results, inv, names)
             sa, sb = inv_signature(inv), inv_signature(newinv)
-            changed = [sp for sp in targets if sa[sp] != sb[sp]]
+            changed = [sp for sp in names if sa[sp] != sb[sp]]
             if not changed:
                 stable = True
                 break
@@ -344,8 +403,25 @@ def analyze_crate(F, depth=2, budget=20000, jobs=None, max_rounds=5, log=None, a
     for sp in never:
         inv[sp] = {"disjuncts": [], "top": True}
     # provenance summaries: which returned byte slices are sub-slices (prefix / suffix) of the slice argument
-    pre = run_pass(F, roots, inv, False, depth, budget, jobs, rootset=roots, collect_prov=True)
+    # return-value ranges of integer functions (bottom-up, a few cheap rounds over the int-returning functions only)
+    ranges = {}
+    int_fns = [r for r in roots if int_returning(F, r)]
+    for rnd in range(3):
+        todo = [f for f in int_fns if f not in ranges]
+        if not todo:
+            break
+        rp = run_pass(F, todo, inv, False, depth, budget, jobs, rootset=roots, summaries=ranges, collect_prov=True)
+        new = {fn: {"__range__": sm["__range__"]} for fn, sm in build_summaries(rp).items() if "__range__" in sm}
+        grown = [fn for fn in new if fn not in ranges]
+        for fn in grown:
+            ranges[fn] = new[fn]
+        if not grown:
+            break
+    say("return ranges for %d of %d integer functions t=%.1f" % (len(ranges), len(int_fns), time.time() - t0))
+    pre = run_pass(F, roots, inv, False, depth, budget, jobs, rootset=roots, summaries=ranges, collect_prov=True)
     summaries = build_summaries(pre)
+    for fn, sm in ranges.items():
+        summaries.setdefault(fn, {})["__range__"] = sm["__range__"]
     say("provenance summaries for %d functions t=%.1f" % (len(summaries), time.time() - t0))
     results = run_pass(F, roots, inv, False, depth, budget, jobs, rootset=roots, summaries=summaries,
                        collect_prov=True)
@@ -357,6 +433,11 @@ def analyze_crate(F, depth=2, budget=20000, jobs=None, max_rounds=5, log=None, a
             a, b = summaries[fn], confirm.get(fn) or {}
             keep = {}
             for path, fl in a.items():
+                if path == "__range__":
+                    # computed without relying on itself (a range is only ever used for *other* functions' callers
+                    # after it was derived): kept as derived in the range rounds
+                    keep[path] = fl
+                    continue
                 if path == "__lensrc__":
                     if b.get(path) is not None and set(b[path]) <= set(fl):
                         keep[path] = fl
